@@ -60,7 +60,20 @@ CMP_TXT = ["<", "<=", "=", "!=", ">=", ">"]
 # ------------------------------------------------------------------ generators
 
 
+# literals whose decimal text contains <digit>0.0<digit> / 0.0<digit> (sympy '0.0x' workarounds in _symbolic.py rewrite such text)
+ZDYADIC = [10.0625, 20.03125, 100.015625, 0.0625, 1.0625, 30.0625, 10.03125, 0.03125, 100.0625, 50.015625, 200.0078125, 0.015625]
+ZDECIMAL = [10.05, 20.025, 100.01, 10.005, 0.05, 1.05, 30.07, 0.01, 200.02, 10.09, 0.005, 1000.03, 40.0625, 0.08, 70.04]
+
+
 def _num(rng, cls):
+    if cls == "zdyadic":
+        if rng.random() < 0.2:
+            return rng.choice(ZDYADIC) * rng.choice([1, -1])
+        cls = "dyadic"
+    if cls == "zdecimal":
+        if rng.random() < 0.25:
+            return rng.choice(ZDECIMAL) * rng.choice([1, -1])
+        return rng.choice([1, -1, 2, -2, 4, 5, -10, 0.5, -0.25, 1.0, 8.0])
     if cls == "int":
         return rng.choice([-12, -7, -5, -3, -2, -1, 1, 1, 2, 2, 3, 4, 5, 9, 10, 24])
     if cls == "dyadic":   # +-2^k: every quotient of two of them is again exact
@@ -71,6 +84,10 @@ def _num(rng, cls):
 
 
 def _const(rng, cls):
+    if cls == "zdyadic":
+        return rng.choice(ZDYADIC) * rng.choice([1, 1, -1])
+    if cls == "zdecimal":
+        return rng.choice(ZDECIMAL) * rng.choice([1, 1, -1])
     if cls == "dyadic":
         return rng.choice([-3.0, -1.5, -0.75, 0.0, 0.375, 1.0, 2.5, 6.0, 10.25])
     if rng.random() < 0.1:
@@ -171,10 +188,10 @@ def _boundary_lines(rng, cls, names):
 
 
 def _gen_simplify(rng):
-    cls = rng.choice(["int", "int", "int", "dyadic", "dyadic", "decimal", "inexact"])
+    cls = rng.choice(["int", "int", "int", "dyadic", "dyadic", "decimal", "inexact", "zdyadic", "zdyadic", "zdecimal"])
     nv = rng.randint(1, 5)
     variables, names = _names(rng, nv)
-    if rng.random() < 0.3:
+    if rng.random() < (0.3 if not cls.startswith("z") else 0.1):
         lines, which = _boundary_lines(rng, cls if cls != "decimal" else "int", names)
         tag = "boundary:" + which
     else:
@@ -185,7 +202,7 @@ def _gen_simplify(rng):
 
 
 def _gen_div(rng):
-    cls = rng.choice(["int", "int", "dyadic"])
+    cls = rng.choice(["int", "int", "dyadic", "zdyadic"])
     nv = rng.randint(2, 4)
     variables, names = _names(rng, nv)
     d = rng.choice(names)
@@ -221,7 +238,34 @@ def _gen_div(rng):
                 rseed=rng.randrange(10**6))
 
 
+def _gen_solve_z(rng):
+    """consistent by construction: equation i owns pivot variable i, the other variables are free ones"""
+    cls = rng.choice(["zdyadic", "zdyadic", "zdecimal"])
+    nv = rng.randint(1, 5)
+    m = rng.randint(1, min(3, nv))
+    variables, names = _names(rng, nv)
+    free = names[m:]
+    lines = []
+    for i in range(m):
+        terms = [_term(rng, _num(rng, cls), names[i])]
+        for w in rng.sample(free, rng.randint(0, min(2, len(free)))):
+            terms.append(_term(rng, _num(rng, cls), w))
+        rng.shuffle(terms)
+        rhs = [_lit(_const(rng, cls))]
+        if free and rng.random() < 0.3:
+            rhs.insert(rng.randrange(2), _term(rng, _num(rng, cls), rng.choice(free)))
+        if rng.random() < 0.25:
+            terms.append(_lit(_const(rng, cls)))
+        L, R = _join(terms), _join(rhs)
+        if rng.random() < 0.2:
+            L, R = R, L
+        lines.append("%s = %s" % (L, R))
+    return dict(kind="solve", cls=cls, variables=variables, nv=nv, text="\n".join(lines), target=None, stream="zero-pattern")
+
+
 def _gen_solve(rng):
+    if rng.random() < 0.4:
+        return _gen_solve_z(rng)
     cls = rng.choice(["int", "int", "dyadic"])
     nv = rng.randint(1, 5)
     m = rng.randint(1, min(3, nv))
@@ -249,7 +293,7 @@ def _gen_solve(rng):
 
 def _gen_matrix(rng):
     nv = rng.randint(1, 5)
-    cls = rng.choice(["int", "dyadic", "dyadic"])
+    cls = rng.choice(["int", "dyadic", "dyadic", "zdyadic", "zdecimal"])
     def entry():
         if rng.random() < 0.2:
             return 0 if cls == "int" else 0.0
@@ -378,15 +422,48 @@ _NUMTOK = re.compile(r"(?<![A-Za-z_0-9])(\d+\.\d*|\.\d+|\d+)(?:[eE][+-]?\d+)?")
 
 
 def _truncated_literal(text):
-    """sympy prints floats with 15 significant digits: a literal with >= 15 of them is a rounded value"""
+    """sympy prints floats with 15 significant digits (padding bare constants with zeros, stripping trailing zeros inside
+    expressions): a literal that still has >= 12 significant digits after removing trailing zeros, or >= 10 of them in a
+    15-digit print, is taken to be a rounded value (class 'inexact': tolerance comparison, no certificate)"""
     for m in _NUMTOK.finditer(text):
         mant = m.group(1)
-        if "." in mant:
-            mant = mant.rstrip("0")      # sympy pads exact values with zeros: '2.00000000000000'
-        digits = mant.replace(".", "").lstrip("0")
-        if len(digits) >= 15:
+        full = mant.replace(".", "").lstrip("0")
+        stripped = (mant.rstrip("0") if "." in mant else mant.rstrip("0")).replace(".", "").lstrip("0")
+        if len(stripped) >= 12 or (len(full) >= 15 and len(stripped) >= 10):
             return True
     return False
+
+
+def _solve_residual_ok(inp, outl, tol):
+    """substitute the solved form into every input equation: all residual coefficients vanish up to rounding"""
+    sub = {}
+    for o in outl:
+        lo = U.linearize(o[2])
+        if o[0][0] != "v" or lo is None or o[1] != "=":
+            return False
+        sub[o[0][1]] = lo
+    if any(w in sub for lo in sub.values() for w in lo[0]):
+        return False
+    for r in inp:
+        la, lb = U.linearize(r[0]), U.linearize(r[2])
+        if la is None or lb is None:
+            return False
+        d = U._add(la, U._scale(lb, Fraction(-1)))
+        res, mag = {}, {}
+        def acc(key, val):
+            res[key] = res.get(key, 0) + val
+            mag[key] = mag.get(key, 0) + abs(val)
+        acc(None, d[1])
+        for w, c in d[0].items():
+            if w in sub:
+                for u, cu in sub[w][0].items():
+                    acc(u, c * cu)
+                acc(None, c * sub[w][1])
+            else:
+                acc(w, c)
+        if any(abs(res[k_]) > tol * mag[k_] for k_ in res):
+            return False
+    return True
 
 
 def _opposing(rels):
@@ -680,6 +757,9 @@ def oracle(case, obs):
     pts = _points(case, I)
     inexact = I["mode"] == "inexact"
     allrels = inp + [r for s in cases for r in s]
+    if inexact and k == "solve" and len(cases) == 1:
+        if not _solve_residual_ok(inp, cases[0], TOL) or len(cases[0]) > len(inp):
+            return [_fail("same-points", site, "inexact-solved-form-residual", dict(output=obs.get("cases")))]
     if inexact and k != "solve" and len(cases) == 1:
         pre, _ = _model_input(inp)
         if py_lines_match(pre, cases[0], TOL) is False:
